@@ -2,7 +2,7 @@ CONSTANTS
   MaxAttrs = 2
   MaxKids = 2
   AttrKinds = {"call", "member", "class", "style", "onClick", "spread", "spreadid", "objlit", "on", "dir", "vmodel", "vmodelc", "vmodels"}
-  KidKinds = {"call", "member", "trivial", "text", "elem", "comp", "direlem", "spreadarr"}
+  KidKinds = {"call", "member", "trivial", "text", "elem", "comp", "direlem", "spreadarr", "parencall"}
   OptCombos = {"TTT", "FFF", "TFF"}
   AttrKinds3 = {"call", "member", "class", "style", "onClick", "spread", "on", "objlit", "vmodel", "vmodels"}
   KidKinds3 = {"call", "comp", "elem"}
